@@ -21,6 +21,18 @@ from .. import dag, exprs, tlc
 LEVEL = 'model_checking'
 
 
+def _lost_arguments(nodes, arrs):
+    """first node (post order) whose announced .arguments lack an Argument leaf it is built from; '' if none"""
+    from nutils import evaluable as ev
+    deps = []
+    for n, a in zip(nodes, arrs):
+        d = {dag.ARGNAMES[n['p'][0]]} if n['op'] == 'Arg' else set().union(*[deps[i - 1] for i in n['d']]) if n['d'] else set()
+        deps.append(d)
+        if d - {x.name for x in a.arguments if isinstance(x, ev.Argument)}:
+            return n['op']
+    return ''
+
+
 def replay_one(item):
     import numpy
     import warnings
@@ -78,6 +90,10 @@ def replay_one(item):
                 if fresh is not None and not (numpy.asarray(fresh[j]).shape == got.shape and numpy.array_equal(numpy.asarray(fresh[j]), got, equal_nan=True)):
                     if m is not None:
                         out.update(status='violation', key='differs-from-fresh', what='call {} (env {}) differs from a freshly compiled function'.format(out['calls'], e), got=got.tolist(), want=numpy.asarray(fresh[j]).tolist())
+                        # root cause: a node that does not announce an argument it depends on is (wrongly) a cacheable constant
+                        lost = _lost_arguments(nodes, arrs)
+                        if lost:
+                            out['key'] = 'stale-cache:arguments-missing:' + lost
                         return out
                 if m is not None and not dag.matches(m, got, n['dt']):
                     out.update(status='violation', key='differs-from-model', what='call {} (env {}) differs from the model value'.format(out['calls'], e), got=got.tolist(), want=[str(x) for x in m.ravel()])
@@ -128,6 +144,12 @@ def run(rep):
     fam = dict(Ops='{"Multiply","Add","InsertAxis","Take","Inflate","Sum","Transpose","LoopSum","IntToFloat","Diagonalize","Negative","Power"}',
                LeafSet='{1, 2, 3, 7, 8, 11, 12, 13, 20, 22, 24}', MaxOps=5, MaxNodes=10, MaxLeaves=5)
     sel = exprs.corpus(rep, rng, 'c03', k, quick=quick, need_arg=False, extra=[('mixed', fam, 300 if quick else 3000)])
+    # loops whose number of iterations is an integer argument: half of the selected programs depend on their arguments ONLY
+    # through the loop length (a length forgotten in Loop.arguments would make such a loop a cached constant)
+    arglen = exprs.extended(rep, rng, 'c03-ext', ['arglen'], k // 4, quick=quick, simulate=250 if quick else 4000)['arglen']
+    only = [p for p in arglen if {n['p'][0] for n in p if n['op'] == 'Arg'} == {14}]
+    sel += only[:k // 8] + [p for p in arglen if p not in only][:k // 8]
+    rep.constants['arglen'] = dict(selected_only_length_dependent=len(only[:k // 8]), selected=len(arglen))
     rep.lap('generated')
     from .c02 import pick_outputs
     metas = [pick_outputs(p, rng) for p in sel]
